@@ -272,7 +272,8 @@ func (t Percentage) serializeTo(writer io.StringWriter) {
 func (t Dimension) serializeTo(writer io.StringWriter) {
 	writer.WriteString(t.Value)
 	// Disambiguate with scientific notation
-	if t.Unit == "e" || t.Unit == "E" || strings.HasPrefix(t.Unit, "e-") || strings.HasPrefix(t.Unit, "E-") {
+	if t.Unit == "e" || t.Unit == "E" || strings.HasPrefix(t.Unit, "e-") || strings.HasPrefix(t.Unit, "E-") ||
+		(len(t.Unit) >= 2 && (t.Unit[0] == 'e' || t.Unit[0] == 'E') && '0' <= t.Unit[1] && t.Unit[1] <= '9') {
 		if t.Unit[0] == 'E' {
 			writer.WriteString("\\45 ")
 		} else {
